@@ -42,8 +42,8 @@ ASSUMPTIONS = [
     "which pipelines are accepted is C01's and C05's business",
     "semantic_segmentation is not in the menu (no built-in method; it bears no margin)",
     "quick: length <= 5, menu of 5 matching costs, 3 cost-volume steps, 10 disparity-map steps, 4 of the 8 environments "
-    "(complete on shape x step, naming alternating); thorough: length <= 6 on the full menu (all 8 environments up to "
-    "length 5, the 4 on the last layer), "
+    "(complete on shape x step, naming alternating); thorough: length <= 5 on the full menu with all 8 environments, "
+    "length 6 on the quick menu with the 4 environments, "
     "length 7 on a reduced menu (no state merging is used: everything is enumerated unmerged)",
     "other machines = fresh PandoraMachine objects of the same process checking margin-heavy pipelines before and after",
 ]
@@ -391,9 +391,11 @@ def spaces(tier, seed):
         graph = [{"sp": "graph", "menu": "quick", "envs": "quick", "p": p} for p in parents]
         extra = []
     else:
-        parents = walk(MENUS["full"], 5)
-        # all 8 environments up to length 5; the 4 (shape x step)-complete ones on the last layer (5 -> 6)
-        graph = [{"sp": "graph", "menu": "full", "envs": "all" if len(p) < 5 else "quick", "p": p} for p in parents]
+        # full menu and all 8 environments up to length 5; the layer 5 -> 6 on the quick menu with the 4
+        # (shape x step)-complete environments
+        graph = [{"sp": "graph", "menu": "full", "envs": "all", "p": p} for p in walk(MENUS["full"], 4)]
+        graph += [{"sp": "graph", "menu": "quick", "envs": "quick", "p": p} for p in walk(MENUS["quick"], 5)
+                  if len(p) == 5]
         extra = [{"sp": "graph", "menu": "reduced", "envs": "all", "p": p} for p in walk(MENUS["reduced"], 6)
                  if len(p) == 6]
     by_len = {}
